@@ -155,6 +155,8 @@ def run(chk, replay=None):
             "empty SPNEGO token: absent and empty OPTIONAL OCTET STRING are not distinguished (model detail)",
             "tokens whose DER length needs 4 octets (>= 16 MiB) are not exercised",
             "encoding/asn1 is trusted for the inner SPNEGO structures"]
+        # ---- the same entry points called by 8 goroutines at once (race-detector build): results as when called alone
+        vlib.parallel_callers(chk, "ntlmssp")
     finally:
         shutil.rmtree(d, ignore_errors=True)
 
